@@ -27,7 +27,7 @@ def run_one(bid, props):
 def main():
     props = [c["property_id"] for c in json.load(open(os.path.join(VERIF, "MANIFEST.json")))["checks"]]
     ids = [a for a in sys.argv[1:] if not a.startswith("--")] or sorted(os.listdir(os.path.join(VERIF, "benign")))
-    with ThreadPoolExecutor(8) as ex:
+    with ThreadPoolExecutor(15) as ex:
         results = list(ex.map(lambda b: run_one(b, props), ids))
     bad = 0
     for bid, res, err in results:
